@@ -276,6 +276,17 @@ HopTo(j, hk) ==
     [] hk = "dref"  -> [dynamicRef |-> ResRef(j, FragNone)]
     [] hk = "allOf" -> [allOf |-> <<[ref |-> ResRef(j, FragNone)]>>]
     [] hk = "inner" -> [ref |-> ResRef(j, FragPtr(<<SegN("defs", "e")>>))]   \* into the interior: the root is never entered
+\* mixed universes: resources in rem are Loader documents, the others are embedded in the root.
+\* A Loader document reaches an embedded resource through a pointer into the root document.
+HopToM(from, j, hk, rem) ==
+  IF from \in rem /\ j \notin rem /\ j # 0 THEN
+    LET base == <<SegN("defs", RN[j])>>
+        rr(f) == Ref(RelRef(<<"root.json">>), f)
+    IN CASE hk = "ref"   -> [ref |-> rr(FragPtr(base))]
+         [] hk = "dref"  -> [dynamicRef |-> rr(FragPtr(base))]
+         [] hk = "allOf" -> [allOf |-> <<[ref |-> rr(FragPtr(base))]>>]
+         [] hk = "inner" -> [ref |-> rr(FragPtr(base \o <<SegN("defs", "e")>>))]
+  ELSE HopTo(j, hk)
 DyFinal(fin) ==
   CASE fin.k = "frag" -> [dynamicRef |-> LocalRef(FragName("n"))]
     [] fin.k = "ptr"  -> [dynamicRef |-> LocalRef(FragPtr(<<SegN("defs", "t")>>))]
@@ -284,15 +295,17 @@ DyFinals == {[k |-> "frag"], [k |-> "ptr"]} \cup {[k |-> "res", j |-> j] : j \in
 \* chains: sequences of distinct resources of length 1..K
 DyChains == {c \in UNION {[1..n -> 1..K] : n \in 1..K} : \A i, j \in DOMAIN c : i # j => c[i] # c[j]}
 \* what resource i does after being entered
-DyAct(i, chain, hk, fin) ==
+DyActM(i, chain, hk, fin, rem) ==
   LET pos == IF i = 0 THEN 0 ELSE IF \E p \in DOMAIN chain : chain[p] = i THEN CHOOSE p \in DOMAIN chain : chain[p] = i ELSE 99
   IN IF pos = 99 THEN <<>>                       \* never entered
      ELSE IF pos = Len(chain) THEN DyFinal(fin)
-     ELSE HopTo(chain[pos + 1], hk)
-DyRes(i, kinds, chain, hk, fin, withId) ==
+     ELSE HopToM(i, chain[pos + 1], hk, rem)
+DyAct(i, chain, hk, fin) == DyActM(i, chain, hk, fin, {})
+DyResM(i, kinds, chain, hk, fin, withId, rem) ==
   (IF withId THEN [id |-> IdOf(RelRef(<<RN[i]>>))] ELSE <<>>)
-  @@ (IF hk = "inner" THEN [defs |-> [t |-> TNode(kinds[i + 1], i), e |-> DyAct(i, chain, hk, fin)]]
-      ELSE [defs |-> [t |-> TNode(kinds[i + 1], i)]] @@ DyAct(i, chain, hk, fin))
+  @@ (IF hk = "inner" THEN [defs |-> [t |-> TNode(kinds[i + 1], i), e |-> DyActM(i, chain, hk, fin, rem)]]
+      ELSE [defs |-> [t |-> TNode(kinds[i + 1], i)]] @@ DyActM(i, chain, hk, fin, rem))
+DyRes(i, kinds, chain, hk, fin, withId) == DyResM(i, kinds, chain, hk, fin, withId, {})
 DyRootURI == URI("http", "h1", TRUE, <<"root.json">>)
 DyEmbedded(kinds, chain, hk, fin) ==
   [docs |-> <<[uri |-> DyRootURI,
@@ -302,6 +315,19 @@ DyEmbedded(kinds, chain, hk, fin) ==
 DyRemote(kinds, chain, hk, fin) ==
   [docs |-> <<[uri |-> DyRootURI, s |-> [defs |-> [t |-> TNode(kinds[1], 0)]] @@ DyAct(0, chain, hk, fin)]>>
              \o [j \in 1..K |-> [uri |-> URI("http", "h1", TRUE, <<RN[j]>>), s |-> DyRes(j, kinds, chain, hk, fin, FALSE)]]]
+DyMixed(kinds, chain, hk, fin, rem) ==
+  LET remSeq == SelectSeq([j \in 1..K |-> j], LAMBDA j : j \in rem)
+  IN [docs |-> <<[uri |-> DyRootURI,
+                  s |-> [defs |-> [t |-> TNode(kinds[1], 0)] @@ [i \in {RN[j] : j \in (1..K) \ rem} |->
+                                       DyResM(CHOOSE j \in 1..K : RN[j] = i, kinds, chain, hk, fin, TRUE, rem)]]
+                        @@ DyActM(0, chain, hk, fin, rem)]>>
+                \o [x \in DOMAIN remSeq |-> [uri |-> URI("http", "h1", TRUE, <<RN[remSeq[x]]>>),
+                                              s |-> DyResM(remSeq[x], kinds, chain, hk, fin, FALSE, rem)]]]
+DyMixedCases(z) ==
+  IF K # 2 THEN {}
+  ELSE {DyMixed(kinds, chain, hk, fin, rem) :
+          kinds \in [1..(K + 1) -> DyKinds], chain \in DyChains, hk \in {"ref", "dref", "allOf", "inner"}, fin \in DyFinals,
+          rem \in {{1}, {2}}}
 DyCases(z) ==
   UNION {{DyEmbedded(kinds, chain, hk, fin), DyRemote(kinds, chain, hk, fin)} :
            \* (K >= 3: reduced alphabets keep the family enumerable)
@@ -321,6 +347,25 @@ DupDocs(z) ==
          properties |-> [a |-> [ref |-> Ref(RelRef(<<"d.json">>), FragNone)]]]}
   \cup {[defs |-> [p |-> DupId(RelRef(<<"root.json">>)) @@ StrS], type |-> "integer", properties |-> [a |-> [ref |-> Ref(RelRef(<<"root.json">>), FragNone)]]]}
 DupCases(z) == {[docs |-> <<[uri |-> DyRootURI, s |-> d]>>] : d \in DupDocs(0)}
+
+\* ------------------------------------------------------------ F6 deep equality
+\* const / enum / uniqueItems over structured values: equality is JSON equality at
+\* every depth (member names matter also when the members are null; order of array
+\* items matters; a missing member is not a null member)
+F6Vals ==
+  {Null, Num(R_0), Num(R_1), Bool(FALSE), Str(""), Str("a"), EmptyObj, EmptyArr,
+   Obj([a |-> Null]), Obj([b |-> Null]), Obj([a |-> Num(R_1)]), Obj([b |-> Num(R_1)]), Obj([a |-> Bool(FALSE)]),
+   Obj([a |-> Null, b |-> Num(R_1)]), Obj([a |-> Num(R_1), b |-> Null]), Obj([a |-> Null, b |-> Null]),
+   Obj([a |-> EmptyObj]), Obj([a |-> Obj([a |-> Null])]), Obj([a |-> Obj([b |-> Null])]), Obj([a |-> EmptyArr]), Obj([a |-> Arr(<<Null>>)]),
+   Arr(<<Null>>), Arr(<<Num(R_1)>>), Arr(<<Null, Null>>), Arr(<<Num(R_1), Null>>), Arr(<<Null, Num(R_1)>>), Arr(<<EmptyObj>>),
+   Arr(<<EmptyArr>>), Arr(<<Obj([a |-> Null])>>), Arr(<<Obj([b |-> Null])>>), Arr(<<Arr(<<Null>>)>>), Arr(<<Str("a")>>), Arr(<<Bool(FALSE)>>)}
+F6Small == {Null, EmptyObj, Obj([a |-> Null]), Obj([b |-> Null]), Obj([a |-> Num(R_1)]), Arr(<<Null>>), EmptyArr, Num(R_1)}
+F6Atoms == {[const |-> c] : c \in F6Vals} \cup {[enum |-> <<c, d>>] : c \in F6Small, d \in F6Small}
+F6Schemas(z) == UNION {F6Atoms, {[not |-> a] : a \in F6Atoms}, {[properties |-> [a |-> a]] : a \in F6Atoms},
+                       {[items |-> a] : a \in F6Atoms}, {[contains |-> a] : a \in F6Atoms},
+                       {[uniqueItems |-> TRUE], [uniqueItems |-> TRUE, minItems |-> 2], [items |-> [uniqueItems |-> TRUE]]}}
+F6Insts == UNION {F6Vals, {Arr(<<x, y>>) : x \in F6Small, y \in F6Small}, {Obj([a |-> x]) : x \in F6Vals},
+                  {Arr(<<Arr(<<x, y>>)>>) : x \in {Obj([a |-> Null]), Obj([b |-> Null])}, y \in {Obj([a |-> Null]), Obj([b |-> Null])}}}
 
 \* ------------------------------------------------------------ selection
 Stamp(s) == IF Dr = "d7" THEN s @@ [schema |-> D7http] ELSE s
@@ -367,6 +412,7 @@ Cases ==
     [] Family = "F3" -> WithSchema(F3Schemas(0))
     [] Family = "F4" -> WithSchema(F4Schemas(0))
     [] Family = "F5" -> WithSchema(F5Docs(0))
+    [] Family = "F6" -> WithSchema(F6Schemas(0))
     [] Family = "U1" -> WithSchema(U1Schemas(0))
     [] Family = "U2" -> WithSchema(U2Schemas(0))
     [] Family = "G1" -> WithSchema(G1Schemas(0))
@@ -374,7 +420,7 @@ Cases ==
     [] Family = "G3" -> WithSchema(G3Docs(0))
     [] Family = "G4" -> G4Docs(0)
     [] Family = "G5" -> {u \in G5Docs(0) : ResolveOK(u, "d7")}
-    [] Family = "DY" -> DyCases(0)
+    [] Family = "DY" -> DyCases(0) \cup DyMixedCases(0)
     [] Family = "DUP" -> DupCases(0)
 InstSet ==
   CASE Family = "F1" -> ScalarVals
@@ -382,6 +428,7 @@ InstSet ==
     [] Family = "F3" -> ObjVals
     [] Family = "F4" -> LogicVals
     [] Family = "F5" -> F5Vals
+    [] Family = "F6" -> F6Insts
     [] Family = "U1" -> U1Vals
     [] Family = "U2" -> U2Vals
     [] Family = "G1" -> ArrVals
